@@ -685,3 +685,16 @@ func CollidingDateKeys(env *schema.Env, ty schema.Ty, v Val) bool {
 	}
 	return false
 }
+
+// HasUnion reports whether v contains a union value with a member.
+func (v Val) HasUnion() bool {
+	if v.K == KUnion && v.Disc != NoMember {
+		return true
+	}
+	for _, e := range v.Elems {
+		if e.HasUnion() {
+			return true
+		}
+	}
+	return false
+}
